@@ -5,6 +5,8 @@ Helper lemmas for property C16 (report writer, `CR/Model/Report.lean`).
   characters (Batteries only has a `TODO: splitOn`; proved here from the `*_of_valid` lemmas).
 * `fieldOfLine_append`, `readBlocks_block`: the line-level reader undoes `blockLines`.
 * `outName_*`: the report file name.
+* `WFVal`, `renderVal_inj`: the printed text of a well-formed value determines the value
+  (`renderVal_prefix`/`renderList_prefix`: unique decomposition of `text ++ delimiter-led rest`).
 -/
 import CR.Model.Report
 import Batteries.Data.String.Lemmas
@@ -626,6 +628,10 @@ theorem floatOK_of_floatMark {r : String} (h : FloatMark r) : FloatOK r := by
   refine ⟨h1, h2, h3, h4, h5, ?_⟩
   rintro i rfl
   exact hn (int_toString_chars i c hc)
+
+theorem boolText_inj {q q' : Bool}
+    (h : (if q then "True" else "False" : String) = (if q' then "True" else "False")) : q = q' := by
+  revert h; cases q <;> cases q' <;> decide
 
 theorem wfList_iff (xs : List RVal) : WFList xs ↔ ∀ x ∈ xs, WFVal x := by
   induction xs with
